@@ -1,5 +1,629 @@
-//! C03 — not built yet.
+//! C03 — lexing follows TeX's scanner; every token traces to its source position.
+//! Engine: BEX. The public `Lexer` API is run directly with a custom `lexer::Config` and a real
+//! `Tracer`; the oracle is `reftex::scan` (tex.web §343-356 with positions). DESIGN.md §3 C03.
+
+use reftex::scan::{self, Item, Table, TokV};
+use serde_json::{json, Value};
+use texlang::token::lexer::{self, Lexer};
+use texlang::token::trace::{Origin, Tracer};
+use texlang::token::{CommandRef, CsNameInterner, Token, Value as TValue};
+use texlang::types::CatCode;
+use vcore::{catch, Acc, Ctx, Level};
+
+// ---------------------------------------------------------------- the case
+
+#[derive(Clone, Debug)]
+struct Case {
+    src: String,
+    elc: Option<char>,
+    over: Vec<(char, u8)>,
+    report: bool,
+}
+
+impl Case {
+    fn json(&self) -> Value {
+        json!({
+            "kind": "lex",
+            "src": self.src,
+            "elc": self.elc.map(|c| c as u32),
+            "over": self.over.iter().map(|(c, k)| json!([*c as u32, k])).collect::<Vec<_>>(),
+            "report": self.report,
+            "readable": format!("source {:?}, end-line char {:?}, plain TeX catcodes{}, report_end_of_line={}",
+                self.src, self.elc,
+                self.over.iter().map(|(c, k)| format!(" with catcode({c:?})={k}")).collect::<String>(), self.report),
+        })
+    }
+    fn from_json(v: &Value) -> Case {
+        Case {
+            src: v["src"].as_str().unwrap_or("").to_string(),
+            elc: v["elc"].as_u64().and_then(|u| char::from_u32(u as u32)),
+            over: v["over"].as_array().map(|a| a.iter().map(|p| (char::from_u32(p[0].as_u64().unwrap() as u32).unwrap(), p[1].as_u64().unwrap() as u8)).collect()).unwrap_or_default(),
+            report: v["report"].as_bool().unwrap_or(true),
+        }
+    }
+}
+
+/// The implementation's base table, as TeX category numbers.
+fn base_low() -> [u8; 128] {
+    let mut low = [12u8; 128];
+    for (i, c) in CatCode::PLAIN_TEX_DEFAULTS.iter().enumerate() {
+        low[i] = *c as u8;
+    }
+    low
+}
+
+struct ImplCfg<'a> {
+    over: &'a [(char, u8)],
+    elc: Option<char>,
+}
+impl lexer::Config for ImplCfg<'_> {
+    fn cat_code(&self, c: char) -> CatCode {
+        for (x, k) in self.over {
+            if *x == c {
+                return CatCode::try_from(*k).unwrap();
+            }
+        }
+        CatCode::PLAIN_TEX_DEFAULTS.get(c as usize).copied().unwrap_or_default()
+    }
+    fn end_line_char(&self) -> Option<char> {
+        self.elc
+    }
+}
+
+/// One observed item of the real lexer, with its trace.
+#[derive(Clone, Debug, PartialEq, Eq)]
+enum Obs {
+    Tok { v: TokV, line: usize, col: usize, content: String, value: String },
+    Invalid { c: char, line: usize, col: usize, content: String },
+    NewLine,
+    /// the lexer kept producing items beyond any possible number
+    Runaway,
+}
+
+const DECOY: &str = "zz\nz";
+
+fn run_impl(case: &Case) -> Vec<Obs> {
+    let cfg = ImplCfg { over: &case.over, elc: case.elc };
+    let mut tracer: Tracer = Default::default();
+    let mut interner: CsNameInterner = Default::default();
+    // a source registered before and one after: keys do not start at 0, and a key that leaves its
+    // range lands in another source's text
+    let _ = tracer.register_source_code(None, Origin::Terminal, DECOY);
+    let range = tracer.register_source_code(None, Origin::File("case.tex".into()), &case.src);
+    let _ = tracer.register_source_code(None, Origin::Terminal, DECOY);
+    let mut lx = Lexer::new(case.src.clone(), range);
+    let cap = 4 * case.src.chars().count() + 16;
+    let mut out = Vec::with_capacity(8);
+    loop {
+        match lx.next(&cfg, &mut interner, case.report) {
+            lexer::Result::Token(t) => {
+                let tr = tracer.trace(t, &interner);
+                let v = match t.value() {
+                    TValue::CommandRef(CommandRef::ControlSequence(n)) => TokV::Cs(interner.resolve(n).unwrap().to_string()),
+                    v => {
+                        let (c, k) = v.char_and_cat_code().unwrap();
+                        TokV::Ch(c, k as u8)
+                    }
+                };
+                let origin_ok = tr.origin == Origin::File("case.tex".into());
+                out.push(Obs::Tok { v, line: tr.line_number, col: tr.index, content: if origin_ok { tr.line_content } else { format!("<other source> {}", tr.line_content) }, value: tr.value });
+            }
+            lexer::Result::InvalidCharacter(c, key) => {
+                // the way the VM traces it (InvalidCharacterError::new)
+                let tr = tracer.trace(Token::new_letter(c, key), &interner);
+                let origin_ok = tr.origin == Origin::File("case.tex".into());
+                out.push(Obs::Invalid { c, line: tr.line_number, col: tr.index, content: if origin_ok { tr.line_content } else { format!("<other source> {}", tr.line_content) } });
+            }
+            lexer::Result::EndOfLine => out.push(Obs::NewLine),
+            lexer::Result::EndOfInput => break,
+        }
+        if out.len() > cap {
+            out.push(Obs::Runaway);
+            break;
+        }
+    }
+    // the end of input is stable
+    if !matches!(lx.next(&cfg, &mut interner, case.report), lexer::Result::EndOfInput) {
+        out.push(Obs::Runaway);
+    }
+    out
+}
+
+fn model_cfg(case: &Case, low: &[u8; 128], hex: bool) -> scan::Config {
+    scan::Config { table: Table { low: *low, over: case.over.clone() }, end_line_char: case.elc, hex }
+}
+
+/// Expected observations from the model's items.
+fn expect(items: &[Item], src: &scan::Source, report: bool) -> Vec<Obs> {
+    let mut out = Vec::with_capacity(items.len());
+    for i in items {
+        match i {
+            Item::Tok(t) => out.push(Obs::Tok { v: t.v.clone(), line: t.line, col: t.col, content: src.line_text(t.line).to_string(), value: t.v.text() }),
+            Item::Invalid { c, line, col } => out.push(Obs::Invalid { c: *c, line: *line, col: *col, content: src.line_text(*line).to_string() }),
+            Item::NewLine => {
+                if report {
+                    out.push(Obs::NewLine)
+                }
+            }
+            Item::End => {}
+        }
+    }
+    out
+}
+
+fn run_model(case: &Case, low: &[u8; 128], hex: bool) -> (Vec<Item>, scan::Source) {
+    let cfg = model_cfg(case, low, hex);
+    let mut s = scan::Source::new(&case.src);
+    let mut items = vec![];
+    loop {
+        match s.next(&cfg) {
+            Item::End => break,
+            i => items.push(i),
+        }
+    }
+    (items, s)
+}
+
+fn show(v: &[Obs]) -> String {
+    v.iter()
+        .map(|o| match o {
+            Obs::Tok { v, line, col, content, value } => format!("{}@{}:{}[{:?} {:?}]", v.exact(), line, col, content, value),
+            Obs::Invalid { c, line, col, content } => format!("INVALID({:?})@{}:{}[{:?}]", c, line, col, content),
+            Obs::NewLine => "EOL".into(),
+            Obs::Runaway => "RUNAWAY".into(),
+        })
+        .collect::<Vec<_>>()
+        .join(" ")
+}
+
+fn first_diff(want: &[Obs], got: &[Obs]) -> String {
+    let i = want.iter().zip(got.iter()).position(|(a, b)| a != b).unwrap_or(want.len().min(got.len()));
+    let what = match (want.get(i), got.get(i)) {
+        (Some(Obs::Tok { v: a, line: la, col: ca, content: xa, value: va }), Some(Obs::Tok { v: b, line: lb, col: cb, content: xb, value: vb })) => {
+            if a != b {
+                "token value"
+            } else if la != lb {
+                "line number"
+            } else if ca != cb {
+                "column"
+            } else if xa != xb {
+                "line text"
+            } else if va != vb {
+                "trace value"
+            } else {
+                "?"
+            }
+        }
+        (None, Some(_)) => "extra item",
+        (Some(_), None) => "missing item",
+        _ => "item kind",
+    };
+    format!("first difference at item {i}: {what}")
+}
+
+/// Precomputed model side of one (source, table, end-line char): both report flags share it.
+struct Expected {
+    items: Vec<Item>,
+    src: scan::Source,
+    /// model with hex = false, only when a two-hex-digit form was available
+    nohex: Option<(Vec<Item>, scan::Source)>,
+}
+
+fn model_side(case: &Case, low: &[u8; 128]) -> Expected {
+    let (items, src) = run_model(case, low, true);
+    let nohex = if src.ev.hex_form_seen { Some(run_model(case, low, false)) } else { None };
+    Expected { items, src, nohex }
+}
+
+fn count_case(case: &Case, low: &[u8; 128], e: &Expected, acc: &mut Acc) {
+    let ev = &e.src.ev;
+    let ntok = e.items.iter().filter(|i| matches!(i, Item::Tok(_))).count();
+    if ntok >= 2 || ev.state_changes >= 1 {
+        acc.nontrivial();
+    }
+    if ev.caret_at_line_end {
+        acc.count("caret_at_line_end");
+    }
+    if ev.caret_in_name {
+        acc.count("caret_in_name");
+    }
+    if ev.caret_recursive {
+        acc.count("caret_recursive");
+    }
+    if ev.trailing_blanks_trimmed {
+        acc.count("trailing_blanks_trimmed");
+    }
+    if ev.hex_form_seen {
+        acc.count("hex_form_available");
+    }
+    if ev.caret_before_non_ascii {
+        acc.count("caret_before_non_ascii");
+    }
+    if let Some(ec) = case.elc {
+        if !case.src.is_empty() {
+            let t = Table { low: *low, over: case.over.clone() };
+            match t.cat(ec) {
+                scan::LETTER => acc.count("elc_letter"),
+                scan::SUP_MARK => acc.count("elc_superscript"),
+                scan::ESCAPE => acc.count("elc_escape"),
+                _ => {}
+            }
+        }
+    }
+    // a traced token after a non-ASCII character of the source
+    let mut first_na: Option<(usize, usize)> = None;
+    'f: for (li, l) in e.src.lines.iter().enumerate() {
+        for (ci, c) in l.chars().enumerate() {
+            if !c.is_ascii() {
+                first_na = Some((li + 1, ci));
+                break 'f;
+            }
+        }
+    }
+    if let Some(p) = first_na {
+        if e.items.iter().any(|i| matches!(i, Item::Tok(t) if (t.line, t.col) > p)) {
+            acc.count("nonascii_before_token");
+        }
+    }
+    let mut class = format!("t{}", ntok.min(7));
+    if e.items.iter().any(|i| matches!(i, Item::Tok(t) if matches!(t.v, TokV::Cs(_)))) {
+        class.push('c');
+    }
+    if ev.reductions > 0 {
+        class.push('r');
+    }
+    if e.items.iter().any(|i| matches!(i, Item::Invalid { .. })) {
+        class.push('i');
+    }
+    if e.items.iter().any(|i| matches!(i, Item::NewLine)) {
+        class.push('n');
+    }
+    class.push_str(&format!("s{}", ev.state_changes.min(5)));
+    acc.class(&class);
+}
+
+/// Judge one case against the precomputed model side.
+fn judge(idx: u64, case: &Case, e: &Expected, acc: &mut Acc) {
+    acc.eval();
+    let want = expect(&e.items, &e.src, case.report);
+    let got = match catch(|| run_impl(case)) {
+        Ok(g) => g,
+        Err(p) => {
+            acc.fail(idx, case.json(), show(&want), p.describe(), "the lexer / tracer panicked");
+            return;
+        }
+    };
+    if got == want {
+        return;
+    }
+    if let Some((items0, src0)) = &e.nohex {
+        // finding D4: applies = a doubled catcode-7 character followed by two of 0-9a-f was met by the
+        // scanner (after earlier reductions, end-line character included); adjusted = model, hex off
+        let want0 = expect(items0, src0, case.report);
+        if got == want0 {
+            acc.known("D4", idx, || {
+                let mut j = case.json();
+                j["expected_tex"] = json!(show(&want));
+                j["observed"] = json!(show(&got));
+                j
+            });
+            return;
+        }
+    }
+    acc.fail(idx, case.json(), show(&want), show(&got), first_diff(&want, &got));
+}
+
+// ---------------------------------------------------------------- enumeration
+
+const SIGMA_Q: [char; 9] = ['\\', '{', '^', ' ', '\n', 'a', 'M', '%', 'é'];
+const SIGMA_T: [char; 16] = ['\\', '{', '^', ' ', '\n', 'a', 'M', '%', 'é', '\r', '\0', '\u{7f}', '~', '5', 'e', '\t'];
+const ELCS: [Option<char>; 7] = [Some('\r'), None, Some('a'), Some('^'), Some(' '), Some('%'), Some('\\')];
+
+fn nth_src(sigma: &[char], i: u64) -> String {
+    vcore::nth_string(sigma.len() as u64, i).into_iter().map(|d| sigma[d as usize]).collect()
+}
+
+/// Characters whose category code is worth reassigning for this source: the characters that occur
+/// (newline excepted: it never reaches the scanner), the end-line character, and every character a
+/// `^^x` reduction of the text could produce (x +- 64 for an ASCII x that follows a doubled
+/// character on its line, the end-line character included).
+fn candidates(src: &str, elc: Option<char>) -> Vec<char> {
+    let mut v: Vec<char> = src.chars().filter(|c| *c != '\n').collect();
+    if let Some(e) = elc {
+        v.push(e);
+    }
+    for line in scan::split_lines(src) {
+        let mut l: Vec<char> = line.trim_end_matches(' ').chars().collect();
+        if let Some(e) = elc {
+            l.push(e);
+        }
+        for i in 2..l.len() {
+            if l[i - 1] == l[i - 2] && l[i].is_ascii() {
+                let u = l[i] as u32;
+                v.push(char::from_u32(if u < 64 { u + 64 } else { u - 64 }).unwrap());
+            }
+        }
+    }
+    v.retain(|c| *c != '\n');
+    v.sort();
+    v.dedup();
+    v
+}
+
+fn plain_cat(low: &[u8; 128], c: char) -> u8 {
+    if (c as u32) < 128 {
+        low[c as usize]
+    } else {
+        12
+    }
+}
+
+/// All cases of one (source, end-line char) with `ndev` reassigned characters, both report flags.
+fn sweep(idx: u64, src: &str, elc: Option<char>, ndev: usize, low: &[u8; 128], acc: &mut Acc) {
+    let mut one = |over: Vec<(char, u8)>, acc: &mut Acc| {
+        let mut case = Case { src: src.to_string(), elc, over, report: true };
+        let e = model_side(&case, low);
+        count_case(&case, low, &e, acc);
+        judge(idx, &case, &e, acc);
+        case.report = false;
+        count_case(&case, low, &e, acc);
+        judge(idx, &case, &e, acc);
+        if idx % 40009 == 11 {
+            acc.sample(idx, || case.json());
+        }
+    };
+    match ndev {
+        0 => one(vec![], acc),
+        1 => {
+            for c in candidates(src, elc) {
+                for k in 0u8..16 {
+                    if k != plain_cat(low, c) {
+                        one(vec![(c, k)], acc);
+                    }
+                }
+            }
+        }
+        _ => {
+            let cand = candidates(src, elc);
+            for (i, &c1) in cand.iter().enumerate() {
+                for &c2 in &cand[i + 1..] {
+                    for k1 in 0u8..16 {
+                        if k1 == plain_cat(low, c1) {
+                            continue;
+                        }
+                        for k2 in 0u8..16 {
+                            if k2 != plain_cat(low, c2) {
+                                one(vec![(c1, k1), (c2, k2)], acc);
+                            }
+                        }
+                    }
+                }
+            }
+        }
+    }
+}
+
+// ---------------------------------------------------------------- model self-validation
+
+enum E {
+    C(char, u8, usize),
+    S(&'static str, usize),
+    NL,
+}
+use E::*;
+
+/// Cases copied from the table tests of crates/texlang/src/token/lexer.rs (test name in the first
+/// column); the numbers are trace keys = character offsets into the source.
+#[allow(clippy::type_complexity)]
+fn golden() -> Vec<(&'static str, String, Option<char>, Vec<(char, u8)>, Vec<E>)> {
+    let cr = Some('\r');
+    vec![
+        ("empty_1", "".into(), cr, vec![], vec![]),
+        ("empty_2", "\n".into(), cr, vec![], vec![S("par", 0)]),
+        ("control_sequence_basic_1", r"\a{b}".into(), cr, vec![], vec![S("a", 0), C('{', 1, 2), C('b', 11, 3), C('}', 2, 4), C(' ', 10, 5)]),
+        ("control_sequence_single_letter_trailing_space_2", r"\a  b".into(), cr, vec![], vec![S("a", 0), C('b', 11, 4), C(' ', 10, 5)]),
+        ("control_sequence_single_letter_trailing_newline_2", "\\a\n\nb".into(), cr, vec![], vec![S("a", 0), NL, S("par", 3), NL, C('b', 11, 4), C(' ', 10, 5)]),
+        ("control_sequence_multi_letter_2", "\\ABC".into(), cr, vec![], vec![S("ABC", 0)]),
+        ("control_sequence_single_other_trailing_space", "\\+ A".into(), cr, vec![], vec![S("+", 0), C(' ', 10, 2), C('A', 11, 3), C(' ', 10, 4)]),
+        ("control_sequence_single_space_trailing_space", "\\  A".into(), cr, vec![], vec![S(" ", 0), C('A', 11, 3), C(' ', 10, 4)]),
+        ("comment_1_with_space", "A%B \nC".into(), cr, vec![], vec![C('A', 11, 0), NL, C('C', 11, 5), C(' ', 10, 6)]),
+        ("comment_2", "A%B\n%C\nD".into(), cr, vec![], vec![C('A', 11, 0), NL, NL, C('D', 11, 7), C(' ', 10, 8)]),
+        ("comment_5", "A%\n\n B".into(), cr, vec![], vec![C('A', 11, 0), NL, S("par", 3), NL, C('B', 11, 5), C(' ', 10, 6)]),
+        ("comment_6", "\\A %\nB".into(), cr, vec![], vec![S("A", 0), NL, C('B', 11, 5), C(' ', 10, 6)]),
+        ("texbook_exercise_8_2_e", "A%\n B%".into(), cr, vec![], vec![C('A', 11, 0), NL, C('B', 11, 4)]),
+        (
+            "texbook_exercise_8_4",
+            r" $x^2$~ \Tex ^^C".into(),
+            cr,
+            vec![],
+            vec![C('$', 3, 1), C('x', 11, 2), C('^', 7, 3), C('2', 12, 4), C('$', 3, 5), C('~', 13, 6), C(' ', 10, 7), S("Tex", 8), C('\u{3}', 12, 15), C(' ', 10, 16)],
+        ),
+        ("texbook_exercise_8_5", "Hi!\n\n\n".into(), cr, vec![], vec![C('H', 11, 0), C('i', 11, 1), C('!', 12, 2), C(' ', 10, 3), NL, S("par", 4), NL, S("par", 5)]),
+        ("double_space_creates_one_space", "A  B".into(), cr, vec![], vec![C('A', 11, 0), C(' ', 10, 1), C('B', 11, 3), C(' ', 10, 4)]),
+        ("space_and_newline_creates_space", "A \nB".into(), cr, vec![], vec![C('A', 11, 0), C(' ', 10, 1), NL, C('B', 11, 3), C(' ', 10, 4)]),
+        ("par_2", "A\n \nB".into(), cr, vec![], vec![C('A', 11, 0), C(' ', 10, 1), NL, S("par", 2), NL, C('B', 11, 4), C(' ', 10, 5)]),
+        ("caret_notation_1", "^^k".into(), cr, vec![], vec![C('+', 12, 2), C(' ', 10, 3)]),
+        ("caret_notation_3", "^^+m".into(), cr, vec![], vec![C('k', 11, 2), C('m', 11, 3), C(' ', 10, 4)]),
+        ("caret_notation_4", "^^\n".into(), cr, vec![], vec![C('M', 11, 2)]),
+        ("caret_notation_5", "^^".into(), cr, vec![], vec![C('M', 11, 2)]),
+        ("caret_notation_6", "^^\nA".into(), cr, vec![], vec![C('M', 11, 2), NL, C('A', 11, 3), C(' ', 10, 4)]),
+        ("caret_notation_recursive_1", "^^\u{1E}^+".into(), cr, vec![], vec![C('k', 11, 4), C(' ', 10, 5)]),
+        ("caret_notation_recursive_2", "\\^^\u{1E}^+".into(), cr, vec![], vec![S("k", 0)]),
+        ("caret_notation_recursive_3", "\\j^^\u{1E}^+".into(), cr, vec![], vec![S("jk", 0)]),
+        ("caret_notation_recursive_4", format!("\\^^{}+", "\u{1E}^".repeat(200)), cr, vec![], vec![S("k", 0)]),
+        ("caret_notation_end_of_input_2", "\\^^".into(), cr, vec![], vec![S("M", 0)]),
+        ("caret_notation_end_of_input_3", "\\a^^".into(), cr, vec![], vec![S("aM", 0)]),
+        ("caret_notation_boundary_1", "^^\u{00}".into(), cr, vec![], vec![C('\u{40}', 12, 2), C(' ', 10, 3)]),
+        ("caret_notation_boundary_3", "^^\u{40}".into(), cr, vec![], vec![S("par", 3)]),
+        ("caret_notation_boundary_4", "^^\u{7F}".into(), cr, vec![], vec![C('\u{3F}', 12, 2), C(' ', 10, 3)]),
+        ("caret_notation_cs_1", r"\^^m".into(), cr, vec![], vec![S("-", 0), C(' ', 10, 4)]),
+        ("caret_notation_cs_2", r"\^^ma".into(), cr, vec![], vec![S("-", 0), C('a', 11, 4), C(' ', 10, 5)]),
+        ("caret_notation_cs_4", r"\^^-a".into(), cr, vec![], vec![S("ma", 0)]),
+        ("caret_notation_cs_5", r"\^^-^^-+".into(), cr, vec![], vec![S("mm", 0), C('+', 12, 7), C(' ', 10, 8)]),
+        ("caret_notation_cs_6", r"\a^^-".into(), cr, vec![], vec![S("am", 0)]),
+        ("caret_notation_cs_7", "\\^a".into(), cr, vec![], vec![S("^", 0), C('a', 11, 2), C(' ', 10, 3)]),
+        ("caret_notation_cs_8", "\\a^a".into(), cr, vec![], vec![S("a", 0), C('^', 7, 2), C('a', 11, 3), C(' ', 10, 4)]),
+        ("control_sequence_single_ignored", r"\Z".into(), cr, vec![('Z', 9)], vec![S("Z", 0), C(' ', 10, 2)]),
+        ("ignored_character_1", "Z".into(), cr, vec![('Z', 9)], vec![S("par", 1)]),
+        ("ignored_character_2", "AZB".into(), cr, vec![('Z', 9)], vec![C('A', 11, 0), C('B', 11, 2), C(' ', 10, 3)]),
+        ("texbook_exercise_8_2_f", r"\AZB".into(), cr, vec![('Z', 9)], vec![S("A", 0), C('B', 11, 3), C(' ', 10, 4)]),
+        ("control_sequence_single_invalid", r"\W".into(), cr, vec![('W', 15)], vec![S("W", 0), C(' ', 10, 2)]),
+        ("non_standard_newline_character", "AXB".into(), cr, vec![('X', 5)], vec![C('A', 11, 0), C(' ', 10, 1)]),
+        ("non_standard_newline_character_after_cs", r"\A XB".into(), cr, vec![('X', 5)], vec![S("A", 0)]),
+        ("single_non_standard_newline", "X".into(), cr, vec![('X', 5)], vec![S("par", 0)]),
+        ("non_standard_whitespace_1", "AYB".into(), cr, vec![('Y', 10)], vec![C('A', 11, 0), C(' ', 10, 1), C('B', 11, 2), C(' ', 10, 3)]),
+        (
+            "texbook_exercise_8_6",
+            r"^^B^^BM^^A^^B^^C^^M^^@\M ".into(),
+            cr,
+            vec![('\u{01}', 0), ('\u{02}', 7), ('\u{03}', 10), ('\u{0D}', 11)],
+            vec![C('\u{02}', 7, 2), C('\u{02}', 7, 5), C('M', 11, 6), S("\u{02}", 9), C(' ', 10, 15), C('\u{0D}', 11, 18), S("M\u{0D}", 22)],
+        ),
+        ("control_sequence_includes_end_line_char_2", r"\A  ".into(), Some('B'), vec![], vec![S("AB", 0)]),
+        ("control_sequence_includes_end_line_char_4", r"\  ".into(), Some('B'), vec![], vec![S("B", 0)]),
+        ("control_sequence_does_not_span_lines", "\\A\nC".into(), Some('B'), vec![], vec![S("AB", 0), NL, C('C', 11, 3), C('B', 11, 4)]),
+        ("repeated_end_line_char_1", "\n\n\n".into(), Some('B'), vec![], vec![C('B', 11, 0), NL, C('B', 11, 1), NL, C('B', 11, 2)]),
+        ("right_side_trimming", "A  \nA  \n".into(), Some('B'), vec![], vec![C('A', 11, 0), C('B', 11, 1), NL, C('A', 11, 4), C('B', 11, 5)]),
+        ("left_side_trimming", "A\n A\n".into(), Some('B'), vec![], vec![C('A', 11, 0), C('B', 11, 1), NL, C('A', 11, 3), C('B', 11, 4)]),
+        ("multiple_skipped_lines", "A\n\n\nB".into(), None, vec![], vec![C('A', 11, 0), NL, NL, NL, C('B', 11, 4)]),
+        ("empty_cs_name", "\\\nB".into(), None, vec![], vec![S("", 0), NL, C('B', 11, 2)]),
+    ]
+}
+
+fn self_validate(ctx: &mut Ctx, low: &[u8; 128]) {
+    // the model's own plain TeX table (TeXbook p. 343) against the crate's, where the crate documents it
+    let plain = Table::plain();
+    let mut diff = vec![];
+    for i in 0..128 {
+        if plain.low[i] != low[i] {
+            diff.push(i);
+        }
+    }
+    // characters 1, 10 and 11 are the known differences of the crate's table from plain.tex (^^A, ^^J,
+    // ^^K); the table is an *input* of the property, so this is recorded, not judged
+    ctx.extra("plain_table_differs_from_texbook_at", json!(diff));
+    for (name, src, elc, over, want) in golden() {
+        let case = Case { src: src.clone(), elc, over, report: true };
+        // the goldens were recorded from an implementation without the hex form; none of them
+        // contains one, so both switches must agree
+        for hex in [true, false] {
+            let (items, s) = run_model(&case, low, hex);
+            let offset = |line: usize, col: usize| -> usize { s.lines[..line - 1].iter().map(|l| l.chars().count() + 1).sum::<usize>() + col };
+            let got: Vec<String> = items
+                .iter()
+                .map(|i| match i {
+                    Item::Tok(t) => format!("{}@{}", t.v.exact(), offset(t.line, t.col)),
+                    Item::Invalid { c, .. } => format!("!{c}"),
+                    Item::NewLine => "NL".into(),
+                    Item::End => "END".into(),
+                })
+                .collect();
+            let wanted: Vec<String> = want
+                .iter()
+                .map(|e| match e {
+                    C(c, k, key) => format!("{}@{}", TokV::Ch(*c, *k).exact(), key),
+                    S(n, key) => format!("{}@{}", TokV::Cs(n.to_string()).exact(), key),
+                    NL => "NL".into(),
+                })
+                .collect();
+            if got != wanted {
+                ctx.machinery_error(format!("model self-validation failed on lexer.rs test {name} (hex={hex}): want {wanted:?} got {got:?}"));
+            }
+        }
+    }
+    // hex form and invalid characters: TeXbook p. 45 (^^5e = ^, ^^5e^M) and §346 (scanning goes on)
+    for (src, want) in [
+        ("a^^5eb", "a/11 ^/7 b/11  /10"),     // ^^5e is ^ (and does not start a further sequence here)
+        ("x^^7fy", "x/11 !127 y/11  /10"),    // ^^7f is DEL, invalid: reported, scanning goes on
+        ("^^5e^M", "\\par"),                  // ^^5e^M -> ^^M -> CR in state N
+        ("\\a^^5fb", "\\a _/8 b/11  /10"),    // §355: the reduced non-letter ends the name and is scanned next
+        ("\\a^^62 c", "\\ab c/11  /10"),      // §355: the reduced letter joins the name
+        ("^^5", "u/11  /10"),                 // one hex digit only: the 64-flip
+    ] {
+        let c = Case { src: src.into(), elc: Some('\r'), over: vec![], report: true };
+        let (items, _) = run_model(&c, low, true);
+        let got: Vec<String> = items.iter().map(|i| match i { Item::Tok(t) => t.v.exact(), Item::Invalid { c, .. } => format!("!{}", *c as u32), _ => "NL".into() }).collect();
+        if got.join(" ") != want {
+            ctx.machinery_error(format!("model self-validation failed on the hex-form example {src:?}: want {want:?} got {got:?}"));
+        }
+    }
+}
+
+// ---------------------------------------------------------------- main
+
 fn main() {
-    eprintln!("c03: check not built yet");
-    std::process::exit(2);
+    let mut ctx = Ctx::new("C03", Level::Exploration);
+    let low = base_low();
+    ctx.assume("lines are the pieces of the source between '\\n' characters, a final '\\n' does not open a further line and the empty source has no line (the crate's documented convention; TeX leaves line splitting to input_ln / the operating system)");
+    ctx.assume("position convention (DESIGN C03): a control sequence is positioned at its escape character, a character made by ^^x / ^^xy at the last character of the sequence (the buffer slot rewritten in place, pinned by the crate's own tests), tokens made from the end-line character at column = length of the right-trimmed line; line text = the untrimmed text of the source line");
+    ctx.assume("the category code table is an input: plain-TeX table of the crate (CatCode::PLAIN_TEX_DEFAULTS, 'other' above 127) with at most two characters reassigned; the reassigned characters range over the characters of the source, the end-line character and the characters a ^^x reduction of the source can produce");
+    ctx.assume("after an invalid character TeX reports an error and goes on scanning (§346); the lexer is driven on after Result::InvalidCharacter and must deliver the remaining tokens");
+    ctx.assume("\\endlinechar ranges over {none, CR, a, ^, space, %, \\}; characters produced by the two-hex-digit form are the Unicode scalar values 0..=255");
+
+    if let Some((_fam, case)) = ctx.replay_case() {
+        let mut acc = Acc::default();
+        let case = Case::from_json(&case);
+        let e = model_side(&case, &low);
+        judge(0, &case, &e, &mut acc);
+        ctx.finish_replay(acc);
+    }
+
+    self_validate(&mut ctx, &low);
+
+    let nelc = ELCS.len() as u64;
+    // F1: every string, plain table
+    {
+        let (sigma, len): (&[char], u32) = if ctx.quick() { (&SIGMA_Q, 6) } else { (&SIGMA_Q, 7) };
+        let n = vcore::strings_upto(sigma.len() as u64, len) * nelc;
+        ctx.family("plain", &format!("every string of length <= {len} over {sigma:?} x 7 end-line characters x report_end_of_line in {{true,false}}, plain TeX category codes"), n, |i, acc| {
+            let src = nth_src(sigma, i / nelc);
+            sweep(i, &src, ELCS[(i % nelc) as usize], 0, &low, acc);
+        });
+    }
+    if !ctx.quick() {
+        let (sigma, len): (&[char], u32) = (&SIGMA_T, 6);
+        let n = vcore::strings_upto(sigma.len() as u64, len) * nelc;
+        ctx.family("plain-wide", &format!("every string of length <= {len} over {sigma:?} x 7 end-line characters x both report flags, plain TeX category codes"), n, |i, acc| {
+            let src = nth_src(sigma, i / nelc);
+            sweep(i, &src, ELCS[(i % nelc) as usize], 0, &low, acc);
+        });
+    }
+    // F2: one reassigned character
+    {
+        let (sigma, len): (&[char], u32) = if ctx.quick() { (&SIGMA_Q, 4) } else { (&SIGMA_Q, 6) };
+        let n = vcore::strings_upto(sigma.len() as u64, len) * nelc;
+        ctx.family("dev1", &format!("every string of length <= {len} over {sigma:?} x 7 end-line characters x both report flags x every single reassignment (candidate character -> each of the 15 other codes)"), n, |i, acc| {
+            let src = nth_src(sigma, i / nelc);
+            sweep(i, &src, ELCS[(i % nelc) as usize], 1, &low, acc);
+        });
+    }
+    if !ctx.quick() {
+        let (sigma, len): (&[char], u32) = (&SIGMA_T, 4);
+        let n = vcore::strings_upto(sigma.len() as u64, len) * nelc;
+        ctx.family("dev1-wide", &format!("every string of length <= {len} over {sigma:?} x 7 end-line characters x both report flags x every single reassignment"), n, |i, acc| {
+            let src = nth_src(sigma, i / nelc);
+            sweep(i, &src, ELCS[(i % nelc) as usize], 1, &low, acc);
+        });
+    }
+    // F3: two reassigned characters
+    {
+        let (sigma, len): (&[char], u32) = if ctx.quick() { (&SIGMA_Q, 3) } else { (&SIGMA_Q, 4) };
+        let n = vcore::strings_upto(sigma.len() as u64, len) * nelc;
+        ctx.family("dev2", &format!("every string of length <= {len} over {sigma:?} x 7 end-line characters x both report flags x every reassignment of two candidate characters (15 x 15 codes per pair)"), n, |i, acc| {
+            let src = nth_src(sigma, i / nelc);
+            sweep(i, &src, ELCS[(i % nelc) as usize], 2, &low, acc);
+        });
+    }
+
+    ctx.require("caret_at_line_end", "a ^^ sequence ends at the last character of its line (end-line character included)");
+    ctx.require("caret_in_name", "a ^^ sequence is reduced inside a control sequence name");
+    ctx.require("caret_recursive", "the product of a ^^ reduction starts a further ^^ sequence");
+    ctx.require("nonascii_before_token", "a traced token stands after a non-ASCII character of the source");
+    ctx.require("trailing_blanks_trimmed", "a line ends in spaces that are trimmed");
+    ctx.require("elc_letter", "the end-line character is a letter");
+    ctx.require("elc_superscript", "the end-line character has category 7");
+    ctx.require("elc_escape", "the end-line character has category 0");
+    ctx.require("hex_form_available", "a doubled category-7 character is followed by two lowercase hex digits (domain of finding D4)");
+    ctx.require("caret_before_non_ascii", "a doubled category-7 character is followed by a character >= 128 (domain of defect D4b)");
+    ctx.finish("cases = (source string, end-line character, category code table, report flag), enumerated exhaustively from the alphabets; non-trivial = the model delivers >= 2 tokens or changes its scanner state inside a line; every delivered token is compared in value, line number, column, line text and trace value with reftex::scan");
 }
